@@ -52,6 +52,12 @@ def optE {β : Type} : Option β → Res β
 /-- The subscript `d[k]`: `KeyError` when `k` is not a key. -/
 def asub {κ β : Type} [DecidableEq κ] (k : κ) (d : List (κ × β)) : Res β := optE (alookup k d)
 
+/-- Sequencing: the first failure wins. -/
+def bindE {β γ : Type} (r : Res β) (f : β → Res γ) : Res γ :=
+  match r with
+  | .error e => .error e
+  | .ok v => f v
+
 /-- `[f(x) for x in l]` where `f` may raise: the first failure wins. -/
 def mapE {β γ : Type} (f : β → Res γ) : List β → Res (List γ)
   | [] => .ok []
@@ -265,39 +271,48 @@ def hopcroftE (kept : List σ) (syms : List α) (trans : List (σ × List (α ×
       | [] => 0
     hopLoopE U (mdelta kept trans) syms pick (2 * U.length + 2) r.1 [fid]
 
-/-- The part of `_minify` after the loop (`back_map`, `new_initial_state`, `new_final_states`,
-`new_transitions`), in the order of the code. -/
-def assembleE (p : Part (Option σ)) (syms : List α) (trans : List (σ × List (α × σ))) (init : σ)
-    (finals : List σ) : Res (DFA (MinName σ) α) :=
-  let good := p.blocks.filter fun b => !(b.2.contains none)
-  let nameOf : σ → Option (MinName σ) := fun q =>
-    (good.find? fun b => b.2.contains (some q)).map fun b => MinName.blk (blockStates b.2)
+/-- The dict comprehension of `new_transitions[name]`: entries whose target has no name
+(`… in back_map.keys()` fails) are dropped. -/
+def renameRow (nameOf : σ → Option (MinName σ)) (row : List (α × σ)) : List (α × MinName σ) :=
+  row.filterMap fun e =>
+    match nameOf e.2 with
+    | some nm => some (e.1, nm)
+    | none => none
+
+/-- One iteration of `for name, eq in eq_class_name_pairs` for a class without the trap:
+`next(iter(eq))` (`StopIteration` on an empty class), `transitions[eq_class_rep]`. -/
+def blockRowE (nameOf : σ → Option (MinName σ)) (trans : List (σ × List (α × σ)))
+    (b : Nat × List (Option σ)) : Res (MinName σ × List (α × MinName σ)) :=
+  match (blockStates b.2).head? with
+  | none => .error (.py .stopIteration)
+  | some r => bindE (asub r trans) fun row => .ok (MinName.blk (blockStates b.2), renameRow nameOf row)
+
+/-- The part of `_minify` after the loop, in the order of the code: `good` = the classes without
+the trap, `nameOf` = `back_map` (as `.get`); `back_map[initial_state]`, `back_map[acc]` for every
+final state, then the rows. -/
+def assembleWithE (good : List (Nat × List (Option σ))) (nameOf : σ → Option (MinName σ))
+    (syms : List α) (trans : List (σ × List (α × σ))) (init : σ) (finals : List σ) :
+    Res (DFA (MinName σ) α) :=
   if good.isEmpty then
     .ok { states := [MinName.zero], syms := syms,
           trans := [(MinName.zero, syms.map fun a => (a, MinName.zero))],
           init := MinName.zero, finals := [], allowPartial := false }
   else
-    match optE (nameOf init) with
-    | .error e => .error e
-    | .ok newInit =>
-      match mapE (fun f => optE (nameOf f)) finals with
-      | .error e => .error e
-      | .ok newFinals =>
-        match mapE (fun b =>
-            match (blockStates b.2).head? with
-            | none => .error (.py .stopIteration)
-            | some r =>
-              match asub r trans with
-              | .error e => .error e
-              | .ok row => .ok (MinName.blk (blockStates b.2), row.filterMap fun e =>
-                  match nameOf e.2 with
-                  | some nm => some (e.1, nm)
-                  | none => none)) good with
-        | .error e => .error e
-        | .ok newTrans =>
-          .ok { states := good.map fun b => MinName.blk (blockStates b.2), syms := syms,
-                trans := newTrans, init := newInit, finals := dedup newFinals,
-                allowPartial := newTrans.any fun kv => kv.2.length != syms.length }
+    bindE (optE (nameOf init)) fun newInit =>
+    bindE (mapE (fun f => optE (nameOf f)) finals) fun newFinals =>
+    bindE (mapE (blockRowE nameOf trans) good) fun newTrans =>
+      .ok { states := good.map fun b => MinName.blk (blockStates b.2), syms := syms,
+            trans := newTrans, init := newInit, finals := dedup newFinals,
+            allowPartial := newTrans.any fun kv => kv.2.length != syms.length }
+
+/-- The part of `_minify` after the loop (`back_map`, `new_initial_state`, `new_final_states`,
+`new_transitions`). -/
+def assembleE (p : Part (Option σ)) (syms : List α) (trans : List (σ × List (α × σ))) (init : σ)
+    (finals : List σ) : Res (DFA (MinName σ) α) :=
+  let good := p.blocks.filter fun b => !(b.2.contains none)
+  assembleWithE good
+    (fun q => (good.find? fun b => b.2.contains (some q)).map fun b => MinName.blk (blockStates b.2))
+    syms trans init finals
 
 /-- `_minify(reachable_states, input_symbols, transitions, initial_state,
 reachable_final_states, retain_names=True)`. -/
@@ -325,6 +340,14 @@ def minifyE (d : DFA σ α) (pick : List Nat → Nat := fun _ => 0) : Res (DFA (
 def toPartialMinE (d : DFA σ α) (pick : List Nat → Nat := fun _ => 0) : Res (DFA (MinName σ) α) :=
   let kept := sinsert d.init (d.accessible.filter fun q => decide (q ∈ d.coaccessible))
   minifyCoreE kept d.syms d.trans d.init (d.finals.filter fun q => decide (q ∈ kept)) pick
+
+/-- `complement(retain_names=True, minify=True)` of an already complete DFA (line 942:
+`complete_dfa.transitions[state]` inside `_bfs_states`, then `_minify`). -/
+def complementMinE (c : DFA σ α) (pick : List Nat → Nat := fun _ => 0) : Res (DFA (MinName σ) α) :=
+  match bfsAuxE c.rowSuccE (c.graphNodes.length + 1) (dedup [c.init]) (dedup [c.init]) with
+  | .error e => .error e
+  | .ok kept =>
+    minifyCoreE kept c.syms c.trans c.init (kept.filter fun q => decide (q ∉ c.finals)) pick
 
 end DFA
 end AV
